@@ -3,6 +3,8 @@ package main
 // Abstract clock model for time.Time, lazy package initialisation, opaque errors.
 
 import (
+	"fmt"
+	"os"
 	"go/token"
 	"go/types"
 
@@ -30,6 +32,9 @@ func (w *World) ensureInit(pkg *ssa.Package) {
 	w.inInit++
 	defer func() { w.inInit-- }()
 	w.initDirect = true
+	if os.Getenv("SYMGO_TRACE_INIT") != "" {
+		fmt.Fprintln(os.Stderr, "INIT", pkg.Pkg.Path())
+	}
 	w.callSSA(nil, token.NoPos, initFn, nil, nil)
 }
 
